@@ -268,6 +268,13 @@ func CompareFunctions(funcName string, oldResult, newResult diff.FingerprintResu
 		NewFingerprint: newResult.Fingerprint,
 	}
 
+	// Functions skipped by the size guard all carry the same marker instead of a fingerprint:
+	// nothing is known about their bodies, so they are never reported as preserved.
+	if oldResult.Fingerprint == "OVERSIZED" || newResult.Fingerprint == "OVERSIZED" {
+		d.Status = models.StatusModified
+		return d
+	}
+
 	if oldResult.Fingerprint == newResult.Fingerprint {
 		d.Status = models.StatusPreserved
 		d.FingerprintMatch = true
